@@ -104,7 +104,11 @@ class Gen:
         elif kind == "hold" and s:
             n = self.fresh("c"); L.append(f"hold {n} {s} {self.small()}"); self.add_cell(n, self.t(s))
         elif kind == "holdlazy" and s:
-            z = self.fresh("z"); L.append(f"mklazy {z} {self.small()}")
+            c0 = self.C()
+            if c0 and c0 not in self.swc and not self.t(c0) and self.r.random() < 0.5:
+                z = self.fresh("z"); L.append(f"lazy {z} {c0}")      # the new cell starts with a Lazy shared with c0
+            else:
+                z = self.fresh("z"); L.append(f"mklazy {z} {self.small()}")
             n = self.fresh("c"); L.append(f"holdlazy {n} {s} {z}"); self.add_cell(n, self.t(s)); self.lazies.append(z)
         elif kind == "once" and s:
             n = self.fresh("s"); L.append(f"once {n} {s}"); self.add_stream(n, self.t(s))
@@ -232,6 +236,9 @@ class Gen:
                 z = self.fresh("z"); body.insert(r.randrange(len(body) + 1), f"lazy {z} {c}"); self.lazies.append(z)
         if r.random() < p["posts"] and self.cells:
             body.insert(r.randrange(len(body) + 1), f"post {self.fresh('p')} {self.C()}")
+        if r.random() < p.get("unlisten_in_txn", 0.0) and self.listeners:
+            # unlisten while the transaction is open, before or after the sends
+            body.insert(r.randrange(len(body) + 1), f"unlisten {r.choice(self.listeners)}")
         if len(body) == 1 and body[0].startswith("send") and r.random() > p["nest"] and not intxn:
             L.append(body[0])
         else:
